@@ -111,3 +111,46 @@ pub fn library(features: &Features, max_notes: usize, max_blocks: usize) -> Boxe
         })
         .boxed()
 }
+
+/// A library in which every note comes in several generated versions (for edit histories).
+#[derive(Clone, Debug, Serialize, Deserialize)]
+pub struct LibVersions {
+    /// (key, versions)
+    pub notes: Vec<(String, Vec<String>)>,
+    pub ext: String,
+}
+
+pub fn library_versions(features: &Features, max_notes: usize, max_blocks: usize, versions: usize) -> BoxedStrategy<LibVersions> {
+    let features = features.clone();
+    let pool: Vec<String> = KEY_POOL
+        .iter()
+        .filter(|k| features.on("subdirs") || !k.contains('/'))
+        .map(|s| s.to_string())
+        .collect();
+    let n = max_notes.min(pool.len());
+    proptest::sample::subsequence(pool, 2..=n.max(2))
+        .prop_flat_map(move |keys| {
+            let mut docs: Vec<BoxedStrategy<Vec<String>>> = vec![];
+            for (i, k) in keys.iter().enumerate() {
+                let (bp, ip) = pools(&features, k, &keys);
+                let mut vs: Vec<BoxedStrategy<String>> = vec![];
+                for v in 0..versions {
+                    let mut cfg = DocCfg::new(&features);
+                    cfg.pool = bp.clone();
+                    cfg.inline_pool = Some(ip.clone());
+                    cfg.max_blocks = max_blocks;
+                    cfg.depth = 2;
+                    cfg.title_p = 0.7;
+                    cfg.number_from = (i as u32 + 1) * 1000 + (v as u32) * 300;
+                    vs.push(doc::text(&cfg));
+                }
+                docs.push(vs.boxed());
+            }
+            (Just(keys), docs, prop_oneof![Just(String::new()), Just(".md".to_string())])
+        })
+        .prop_map(|(keys, texts, ext)| LibVersions {
+            notes: keys.into_iter().zip(texts.into_iter()).collect(),
+            ext,
+        })
+        .boxed()
+}
